@@ -1,3 +1,61 @@
 (* C27 — URIs survive serialisation and agree with net/url. *)
-From FH Require Import Model.Base Model.Uri.
-Example C27_placeholder : True. Proof. exact I. Qed.
+From FH Require Import Model.Base Gen.GenC27 Model.IPv6 Model.PathNorm Model.Uri Proof.UriProof.
+Open Scope N_scope.
+
+(* For any URI fasthttp parses successfully (path normalisation on; any host argument, in particular none = an absolute URI)
+   whose host does not contain a literal '%' after decoding: parsing FullURI() again succeeds and yields the same scheme,
+   host, path, query string and fragment (QueryArgs() not used: the query string is serialised as it was parsed). *)
+Theorem C27_fulluri_reparse : forall hostArg uri u, wf_bytes hostArg -> wf_bytes uri ->
+  parse hostArg uri = UOk u -> ~ In PCT (Host u) ->
+  exists u', parse [] (FullURI u) = UOk u' /\
+    Scheme u' = Scheme u /\ Host u' = Host u /\ Path u' = Path u /\ QueryString u' = QueryString u /\ Hash u' = Hash u.
+Proof. exact fulluri_reparse. Qed.
+Print Assumptions C27_fulluri_reparse.
+
+(* ... and parsing RequestURI() against the same host yields the same path and query string *)
+Theorem C27_requesturi_reparse : forall hostArg uri u, wf_bytes hostArg -> wf_bytes uri ->
+  parse hostArg uri = UOk u -> ~ In PCT (Host u) ->
+  exists u', parse (Host u) (RequestURI u) = UOk u' /\ Host u' = Host u /\ Path u' = Path u /\ QueryString u' = QueryString u.
+Proof. exact requesturi_reparse. Qed.
+Print Assumptions C27_requesturi_reparse.
+
+(* the query ARGUMENTS are a function of the query string (Args.ParseBytes, property C28): equal strings, equal arguments *)
+Theorem C27_query_args_preserved : forall (A : Type) (parse_args : bytes -> A) hostArg uri u, wf_bytes hostArg -> wf_bytes uri ->
+  parse hostArg uri = UOk u -> ~ In PCT (Host u) ->
+  (exists u', parse [] (FullURI u) = UOk u' /\ parse_args (QueryString u') = parse_args (QueryString u)) /\
+  (exists u', parse (Host u) (RequestURI u) = UOk u' /\ parse_args (QueryString u') = parse_args (QueryString u)).
+Proof.
+  intros A pa hostArg uri u H1 H2 H3 H4. split.
+  - destruct (fulluri_reparse _ _ _ H1 H2 H3 H4) as (u' & E & _ & _ & _ & Eq & _). exists u'. now rewrite Eq.
+  - destruct (requesturi_reparse _ _ _ H1 H2 H3 H4) as (u' & E & _ & _ & Eq). exists u'. now rewrite Eq.
+Qed.
+Print Assumptions C27_query_args_preserved.
+
+(* the building blocks *)
+Theorem C27_quote_then_decode : forall p rest, decodeNoPlus_loop (Q p ++ rest) = p ++ decodeNoPlus_loop rest.
+Proof. exact loop_quote. Qed.
+Print Assumptions C27_quote_then_decode.
+Theorem C27_quote_emits_no_delimiter : forall p c, In c (Q p) -> c <> QM /\ c <> HASH /\ isctl c = false.
+Proof. exact Q_chars. Qed.
+Print Assumptions C27_quote_emits_no_delimiter.
+Theorem C27_host_parses_to_itself : forall host0 ph, wf_bytes host0 -> parseHost host0 = UOk ph -> ~ In PCT ph ->
+  parseHost (lowercaseBytes ph) = UOk (lowercaseBytes ph) /\ lowercaseBytes (lowercaseBytes ph) = lowercaseBytes ph.
+Proof. intros h0 ph Hw Hp Hn. destruct (parseHost_stable h0 ph Hw Hp Hn) as (A & B & _). auto. Qed.
+Print Assumptions C27_host_parses_to_itself.
+
+(* the guard is needed: a host that decodes to a literal '%' does not survive *)
+Example C27_guard_needed :
+  match parse [] (s2b "http://a%25b/") with
+  | UOk u => Host u = s2b "a%b" /\ FullURI u = s2b "http://a%b/" /\ parse [] (FullURI u) = UErr ErrEscape
+  | UErr _ => False
+  end.
+Proof. vm_compute. repeat split; reflexivity. Qed.
+
+Example C27_ex :
+  match parse [] (s2b "HTTP://User:Pw@EXAMPLE.com:80/a/./b/../c%2Fd%20e?x=1&y=%zz#F#g") with
+  | UOk u => Scheme u = s2b "http" /\ Host u = s2b "example.com:80" /\ Path u = s2b "/a/c/d e" /\ QueryString u = s2b "x=1&y=%zz"
+             /\ Hash u = s2b "F#g" /\ u_username u = s2b "User" /\ u_password u = s2b "Pw"
+             /\ FullURI u = s2b "http://example.com:80/a/c/d%20e?x=1&y=%zz#F#g" /\ RequestURI u = s2b "/a/c/d%20e?x=1&y=%zz"
+  | UErr _ => False
+  end.
+Proof. vm_compute. repeat split; reflexivity. Qed.
